@@ -324,7 +324,7 @@ def abstractEvent : Item → SelEvent
   | .ok (.records p) => .records (p.getD [])
   | .ok (.progress d) => .progress ((d.map (xmlPayload vProgress)).getD [])
   | .ok (.stats d) => .stats ((d.map (xmlPayload vStats)).getD [])
-  | .error e => .error e.code (e.message.getD [])
+  | .error e => .error (truncateHeaderValue e.code) ((e.message.map truncateHeaderValue).getD [])
 
 theorem interpret_item (it : Item) : interpret (toDecoded (itemMessage it)) = some (abstractEvent it) := by
   cases it with
@@ -343,8 +343,56 @@ theorem interpret_item (it : Item) : interpret (toDecoded (itemMessage it)) = so
 def kindOf : Event → Kind
   | .cont => .cont | .endEv => .endEv | .progress _ => .progress | .records _ => .records | .stats _ => .stats
 
-/-- code or message longer than a string header (u16 length) can hold -/
-def errorTooLong (e : S3Err) : Bool :=
-  decide (65535 < e.code.length) || decide (65535 < (e.message.getD []).length)
+/-! ## `truncate_header_value` -/
+
+theorem truncEnd_le (s : Bytes) : ∀ n, truncEnd s n ≤ n := by
+  intro n
+  induction n with
+  | zero => simp [truncEnd]
+  | succ e ih => unfold truncEnd; split <;> omega
+
+theorem truncEnd_boundary (s : Bytes) : ∀ n, isCharBoundary s (truncEnd s n) = true := by
+  intro n
+  induction n with
+  | zero => simp [truncEnd, isCharBoundary]
+  | succ e ih =>
+    unfold truncEnd
+    split
+    · assumption
+    · exact ih
+
+theorem isCharBoundary_length (s : Bytes) : isCharBoundary s s.length = true := by
+  unfold isCharBoundary
+  by_cases h : s.length = 0 <;> simp [h]
+
+theorem truncEnd_length (s : Bytes) : truncEnd s s.length = s.length := by
+  cases h : s.length with
+  | zero => rfl
+  | succ e => rw [truncEnd, ← h, isCharBoundary_length]; simp
+
+/-- text that fits a string header is not changed -/
+theorem truncateHeaderValue_eq_self (s : Bytes) (h : s.length ≤ 65535) : truncateHeaderValue s = s := by
+  unfold truncateHeaderValue
+  rw [Nat.min_eq_left h, truncEnd_length, List.take_length]
+
+/-- the result always fits a string header -/
+theorem truncateHeaderValue_length_le (s : Bytes) : (truncateHeaderValue s).length ≤ 65535 := by
+  unfold truncateHeaderValue
+  have := truncEnd_le s (min s.length 65535)
+  simp only [List.length_take]
+  omega
+
+/-- the result is a prefix of the text -/
+theorem truncateHeaderValue_prefix (s : Bytes) : truncateHeaderValue s <+: s := List.take_prefix _ _
+
+/-- … that ends at a character boundary of the text (not inside a multi-byte sequence) -/
+theorem truncateHeaderValue_boundary (s : Bytes) :
+    isCharBoundary s (truncateHeaderValue s).length = true := by
+  unfold truncateHeaderValue
+  have h1 := truncEnd_le s (min s.length 65535)
+  have h2 := truncEnd_boundary s (min s.length 65535)
+  have : (List.take (truncEnd s (min s.length 65535)) s).length = truncEnd s (min s.length 65535) := by
+    simp only [List.length_take]; omega
+  rw [this]; exact h2
 
 end S3V.EvStreamThm
